@@ -1133,6 +1133,11 @@ impl WorldD {
                 2 => format!("{}/channel-1234/{}", THEIR_PORT, base.0),                // other channel
                 3 => format!("{}/{}/{}/{}/{}", THEIR_PORT, ch.1, THEIR_PORT, ch.1, base.0), // nested
                 4 => format!("{}/{}/cw20:nonsense", THEIR_PORT, ch.1),
+                6 => {
+                    // the same letters in the other case: another denom, possibly escrowed for another channel
+                    let flipped = if base.0.chars().any(|c| c.is_ascii_lowercase()) { base.0.to_uppercase() } else { base.0.to_lowercase() };
+                    format!("{}/{}/{}", THEIR_PORT, ch.1, flipped)
+                }
                 5 => {
                     // a denom that lives on another channel of ours
                     let other = self.channels.iter().find(|c| c.0 != ch.0).cloned().unwrap_or(ch.clone());
@@ -1285,7 +1290,9 @@ impl World for WorldD {
             Kind::Ics20 => snap_ics(inner, deps, env),
             _ => Snap::None,
         }));
-        let lookalikes: Vec<String> = tokens.iter().map(|t| format!("factory/sim/cw20:{}", t)).collect();
+        let mut lookalikes: Vec<String> = tokens.iter().map(|t| format!("factory/sim/cw20:{}", t)).collect();
+        // a bank denom that differs from an ordinary one only by case is a different denom
+        lookalikes.push(NATIVES[0].to_uppercase());
         for u in &users {
             chain.mint(u, lookalikes.iter().map(|d| Coin::new(1_000_000_000u128, d.clone())).collect());
         }
